@@ -134,6 +134,7 @@ type flow struct {
 	tags     []string
 	redirect string // the validated redirect URI an error redirect may go to ("" = none)
 	thorough bool   // only in the thorough tier
+	rejected bool   // the fault-free answer is itself an error (the request is invalid)
 	prep     func(e env) func() *opfix.Resp
 }
 
@@ -156,6 +157,18 @@ func flows() []flow {
 		add(flow{coq: emit.Ctor("FAuthorize", c.coq, "false"), name: "authorize", tags: []string{"client=" + cn, "hint=false"}, redirect: c.redirect,
 			prep: func(e env) func() *opfix.Resp {
 				return func() *opfix.Resp { return e.f.Get(e.r, "/authorize", e.authQuery(c, "code", full, "")) }
+			}})
+	}
+	// a redirect_uri that is NOT registered: nothing has been validated, so any error redirect is open
+	for _, cn := range []string{"web", "native"} {
+		c := clients[cn]
+		add(flow{coq: emit.Ctor("FAuthorizeUnregistered", c.coq), name: "authorize_unregistered", tags: []string{"client=" + cn}, redirect: "", rejected: true,
+			prep: func(e env) func() *opfix.Resp {
+				return func() *opfix.Resp {
+					q := e.authQuery(c, "code", full, "")
+					q.Set("redirect_uri", "https://attacker.example.net/cb")
+					return e.f.Get(e.r, "/authorize", q)
+				}
 			}})
 	}
 	{
